@@ -650,6 +650,46 @@ def r5(k: Kit) -> None:
                               k.loc(pk, node))
 
 
+def r6(k: Kit) -> None:
+    """The host key signs under the negotiated signature algorithm."""
+    rep = k.rep
+    rep.rule('C03.R6', 'choose_server_host_key: the key pair chosen for a '
+             'connection has its signature algorithm set to the negotiated '
+             'name, unless the pair\'s current signature algorithm '
+             '(keypair.algorithm, which an earlier connection may have '
+             'changed) is already that name')
+    fi = k.func('connection.SSHServerConnection.choose_server_host_key')
+    g = k.cfg(fi)
+    stores = k.stores_to(fi, 'self._server_host_key')
+    rep.floor('C03.R6', 'host key choice sites', len(stores), 1)
+    for n, v in stores:
+        kp = dotted(v)
+        sets = [x.id for x, c in k.calls_named(fi, 'set_sig_algorithm')
+                if dotted(c.func.value) == kp]
+
+        def val(x, kp=kp):
+            a = x.ast
+            if x.kind != 'atom' or not isinstance(a, ast.Compare) or \
+                    len(a.ops) != 1:
+                return None
+            sides = {dotted(a.left), dotted(a.comparators[0])}
+            if f'{kp}.algorithm' in sides and len(sides) == 2:
+                if isinstance(a.ops[0], ast.NotEq):
+                    return False
+                if isinstance(a.ops[0], ast.Eq):
+                    return True
+            return None
+        w = g.guarded_by(n.id, val, extra_blocked=sets)
+        rep.check(w is None, 'C03.R6', key(fi, 'signature algorithm is the '
+                                           'negotiated one'),
+                  'set_sig_algorithm(alg) unless keypair.algorithm == alg',
+                  'the chosen host key pair can keep the signature algorithm '
+                  'a previous connection left on the shared key pair: the '
+                  'exchange hash is signed with an algorithm that was not '
+                  'negotiated for this connection', k.loc(fi, n),
+                  g.describe_path(w) if w else None)
+
+
 def run(idx, rep, tier):
     k = Kit(idx, rep)
     rep.assumptions += NOT_DECIDED
@@ -663,3 +703,4 @@ def run(idx, rep, tier):
     r3(k)
     r4(k)
     r5(k)
+    r6(k)
